@@ -166,6 +166,10 @@ func init() {
 			m.yield("point")
 			return nil
 		},
+		"vfSleep": func(m *Machine, fr *frame, fn *ssa.Function, a []Value) Value {
+			m.sleep(m.concretize(a[0].(T), true))
+			return nil
+		},
 		"vfSpawn": func(m *Machine, fr *frame, fn *ssa.Function, a []Value) Value { return m.C.BVC(uint64(len(m.gs)), 64) },
 		"vfEnter": func(m *Machine, fr *frame, fn *ssa.Function, a []Value) Value { return nil },
 		"vfExit":  func(m *Machine, fr *frame, fn *ssa.Function, a []Value) Value { return nil },
